@@ -54,6 +54,7 @@ func C04(c *Ctx) {
 		c.Inconclusive("%v", err)
 		return
 	}
+	specs = g.Specs
 	N := 5
 	if c.Thorough() {
 		N = 6
